@@ -189,7 +189,7 @@ CLAIMS['C08'] = {
             'with ANY choice of DATA chunks to send or retransmit (cwnd / rwnd / MTU bundling / burst budget / T3, fast-retransmit and RACK marks / stream '
             'scheduler are an input of the pass, quantified over), deliveries of ANY packet ever sent (loss, duplication, reordering, delay, stale replay of '
             'DATA, SACK, SHUTDOWN, SHUTDOWN-ACK, SHUTDOWN-COMPLETE), T2 / T3 / delayed-ack expiries, reads and transport failures: '
-            '(1) C08_shutdown_ok_implies_delivered: if Shutdown has returned nil and the local transport did not fail, every message accepted before the call '
+            '(1) C08_shutdown_ok_implies_delivered_partial (+ C08_shutdown_nil_on_transport_failure_witness): if Shutdown has returned nil and the local transport did not fail, every message accepted before the call '
             'has been handed to the peer\'s streams, what the peer read from each stream is an in-order prefix of what was written to it, and every stream that '
             'reported closure had delivered everything first; (2) C08_no_write_after_shutdown: once a Shutdown call passed its state gate every write is '
             'rejected and queues nothing, OpenStream is refused; (3) C08_shutdown_states_drained: SHUTDOWN-SENT / SHUTDOWN-ACK-SENT only with nothing queued '
